@@ -227,7 +227,7 @@ def rule_span_prov(facts):
         n += 1
         seen[key] = sorted(vals)
         want = IT.SPAN_PROV.get(key)
-        ok = want is not None and sorted(want) == sorted(vals)
+        ok = want is not None and (sorted(want) == sorted(vals) or __import__("nf").equal_up_to_renaming(sorted(vals), sorted(want)))
         r.ob(ok)
         if len(r.samples) < 3:
             r.samples.append({key: sorted(vals)})
